@@ -8,9 +8,26 @@ C04 setup fresnel|angular nx ny dx dy lam z n q s        (q, s: a scalar or a pe
    -> ok M=[mx,my] cut=y0:y1:x0:x1|none branch=ir|tf slack=… regime=0|1 noevan=0|1 minrad=… nudelta=[…] nuzero=[…]
 C04 set distance|refractive_index|num_oversampling|zero_padding|wavelength v   -> ok   (a setter on the same object)
 C04 info          -> the setup line for the parameters now in force
-C04 tf ix iy      -> ok turns=[…]   (fresnel: sub-sample phases in turns mod 1)
-                   | ok rad=[…] evz=… evzold=…   (angular: sub-sample radicands (n/λ)² - ν²; decay distance of
-                                                   evanescent components, repaired and unrepaired code)
+C04 tfq qx qy     -> the transfer-function sample that multiplies FFT bin (qy,qx), i.e. the one at the centred index
+                      (ix,iy) = `ifftshiftIdx` of the bin (what `modelD` uses):
+                      ok at=[ix,iy] turns=[…]   (fresnel: sub-sample phases in turns mod 1)
+                    | ok at=[ix,iy] rad=[…] evz=… evzold=…   (angular: sub-sample radicands (n/λ)² - ν²; decay distance
+                                                   of evanescent components, repaired and unrepaired code)
+C04 emb           -> ok rows=[…] cols=[…] padok=0|1: internal row of every input row, internal column of every input
+                      column (`embRows`, `embCols` — the components of `cutoutEmb`)
+C04 stokesI [a,b,c,d] [xr,xi,yr,yi,zr,zi,wr,wi] -> ok I=… phys=0|1   (`stokesI`, `stokesPhysical`; stateless)
+C04 mdot n 0|1 Dre Dim vre vim -> ok re=[…] im=[…]   (`mdot`: D·v, or Dᴴ·v when the flag is 1; D row-major n², v n; stateless)
+C04 filt 0|1 Dre Dim xre xim -> ok re=[…] im=[…]: the `FourierFilter._operation` pipeline itself (`filtOp`: `filterP` /
+                      `filterPBackward` = pad at `cutStart`, `Fft.dft2`, `shiftD`, multiply, inverse `Fft.dft2`, crop) on Gaussian
+                      rationals, forward (0) or backward (1), for the filter set up (internal sizes must be in {1,2,4});
+                      D centred, row-major My·Mx; x row-major ny·nx
+C04 filtp 0|1 Dre Dim xre xim -> ok out=c:t,c:t;…: the same pipeline on formal phase sums (`filtOpP`), any internal size with
+                      My·Mx ≤ 64: per output pixel (row-major, `;`-separated) the terms `c·exp(2πi t)` as `c:t`
+C04 filtmp n 0|1 Dre Dim xre xim -> ok out=…: the pipeline with an n×n matrix transfer function on a vector field (`filtMOpP`:
+                      `filterMP` / `filterMPBackward`) on formal phase sums; D index (i·n+j)·My·Mx + pixel, x index t·ny·nx + pixel;
+                      n²·My·Mx ≤ 256; output as `filtp`, index t·ny·nx + pixel
+C04 prop 0|1 xre xim -> ok out=…: the Fresnel propagator set up (transfer-function branch, My·Mx ≤ 64) applied to x, exactly, on
+                      formal phase sums (`propOpP`: `filterP` with the transfer function `fresnelTFP` = mean of the `fresnelSubTurns` phases)
 C04 ir jy         -> ok amp=… turns=[…] (fresnel) | ok r2=[…] (angular): impulse response on row jy of the
                       enlarged grid, for jx = 0..Mx-1 and all s² dithers (x dither fastest)
 ```
@@ -80,15 +97,82 @@ def step (st : St) : List String → St × String
     match st.p with
     | some p => (st, info p)
     | none => (st, "err value")
-  | ["tf", ix, iy] =>
-    match st.p, parseNat? ix, parseNat? iy with
-    | some p, some ix, some iy =>
-      if ix ≥ mx p || iy ≥ my p then (st, "err index") else
+  | ["tfq", qx, qy] =>
+    match st.p, parseNat? qx, parseNat? qy with
+    | some p, some qx, some qy =>
+      if qx ≥ mx p || qy ≥ my p then (st, "err index") else
+      let ix := ifftshiftIdx (mx p) qx
+      let iy := ifftshiftIdx (my p) qy
       match p.kind with
-      | .fresnel => (st, s!"ok turns={showRatList (fresnelSubTurns p ix iy)}")
-      | .angular => (st, s!"ok rad={showRatList (angularSubRadicands p ix iy)} evz={showRat (evanescentZ p)} evzold={showRat (evanescentZOld p)}")
+      | .fresnel => (st, s!"ok at={showNatList [ix, iy]} turns={showRatList (fresnelSubTurns p ix iy)}")
+      | .angular => (st, s!"ok at={showNatList [ix, iy]} rad={showRatList (angularSubRadicands p ix iy)} evz={showRat (evanescentZ p)} evzold={showRat (evanescentZOld p)}")
     | none, some _, some _ => (st, "err value")
     | _, _, _ => (st, "bad-op")
+  | ["emb"] =>
+    match st.p with
+    | some p => (st, s!"ok rows={showNatList (embRows p)} cols={showNatList (embCols p)} padok={showBool (padOK p)}")
+    | none => (st, "err value")
+  | ["stokesI", sv, e] =>
+    match parseRatList? sv, parseRatList? e with
+    | some [a, b, c, d], some [xr, xi, yr, yi, zr, zi, wr, wi] =>
+      (st, s!"ok I={showRat (stokesI a b c d xr xi yr yi zr zi wr wi)} phys={showBool (stokesPhysical a b c d)}")
+    | _, _ => (st, "bad-op")
+  | ["mdot", n, adj, dre, dim, vre, vim] =>
+    match parseNat? n, parseNat? adj, parseRatList? dre, parseRatList? dim, parseRatList? vre, parseRatList? vim with
+    | some n, some adj, some dre, some dim, some vre, some vim =>
+      if adj > 1 || dre.length ≠ n * n || dim.length ≠ n * n || vre.length ≠ n || vim.length ≠ n then (st, "err value") else
+      let D := (dre.zip dim).map fun (a, b) => (⟨a, b⟩ : GRat)
+      let v := (vre.zip vim).map fun (a, b) => (⟨a, b⟩ : GRat)
+      let r := mdot n (adj == 1) D v
+      (st, s!"ok re={showRatList (r.map (·.re))} im={showRatList (r.map (·.im))}")
+    | _, _, _, _, _, _ => (st, "bad-op")
+  | ["filt", back, dre, dim, xre, xim] =>
+    match st.p, parseNat? back, parseRatList? dre, parseRatList? dim, parseRatList? xre, parseRatList? xim with
+    | some p, some back, some dre, some dim, some xre, some xim =>
+      let ok4 := fun (m : Nat) => m = 1 || m = 2 || m = 4
+      if back > 1 || !(ok4 (my p)) || !(ok4 (mx p)) || !(padOK p) || dre.length ≠ my p * mx p || dim.length ≠ my p * mx p
+          || xre.length ≠ p.ny * p.nx || xim.length ≠ p.ny * p.nx then (st, "err value") else
+      let D := (dre.zip dim).map fun (a, b) => (⟨a, b⟩ : GRat)
+      let x := (xre.zip xim).map fun (a, b) => (⟨a, b⟩ : GRat)
+      let r := filtOp p (back == 1) D x
+      (st, s!"ok re={showRatList (r.map (·.re))} im={showRatList (r.map (·.im))}")
+    | none, some _, some _, some _, some _, some _ => (st, "err value")
+    | _, _, _, _, _, _ => (st, "bad-op")
+  | ["filtp", back, dre, dim, xre, xim] =>
+    match st.p, parseNat? back, parseRatList? dre, parseRatList? dim, parseRatList? xre, parseRatList? xim with
+    | some p, some back, some dre, some dim, some xre, some xim =>
+      if back > 1 || my p * mx p > 64 || !(padOK p) || dre.length ≠ my p * mx p || dim.length ≠ my p * mx p
+          || xre.length ≠ p.ny * p.nx || xim.length ≠ p.ny * p.nx then (st, "err value") else
+      let D := (dre.zip dim).map fun (a, b) => (⟨a, b⟩ : GRat)
+      let x := (xre.zip xim).map fun (a, b) => (⟨a, b⟩ : GRat)
+      let r := filtOpP p (back == 1) D x
+      let showT := fun (t : Fft.Term) => if t.r == 0 then s!"{showRat t.c}:{showRat t.t}" else "?"
+      (st, "ok out=" ++ ";".intercalate (r.map fun s => ",".intercalate (s.terms.map showT)))
+    | none, some _, some _, some _, some _, some _ => (st, "err value")
+    | _, _, _, _, _, _ => (st, "bad-op")
+  | ["filtmp", n, back, dre, dim, xre, xim] =>
+    match st.p, parseNat? n, parseNat? back, parseRatList? dre, parseRatList? dim, parseRatList? xre, parseRatList? xim with
+    | some p, some n, some back, some dre, some dim, some xre, some xim =>
+      if back > 1 || n = 0 || n * n * (my p * mx p) > 256 || !(padOK p) || dre.length ≠ n * n * (my p * mx p) || dim.length ≠ dre.length
+          || xre.length ≠ n * (p.ny * p.nx) || xim.length ≠ xre.length then (st, "err value") else
+      let D := (dre.zip dim).map fun (a, b) => (⟨a, b⟩ : GRat)
+      let x := (xre.zip xim).map fun (a, b) => (⟨a, b⟩ : GRat)
+      let r := filtMOpP p n (back == 1) D x
+      let showT := fun (t : Fft.Term) => if t.r == 0 then s!"{showRat t.c}:{showRat t.t}" else "?"
+      (st, "ok out=" ++ ";".intercalate (r.map fun s => ",".intercalate (s.terms.map showT)))
+    | none, some _, some _, some _, some _, some _, some _ => (st, "err value")
+    | _, _, _, _, _, _, _ => (st, "bad-op")
+  | ["prop", back, xre, xim] =>
+    match st.p, parseNat? back, parseRatList? xre, parseRatList? xim with
+    | some p, some back, some xre, some xim =>
+      if back > 1 || my p * mx p > 64 || !(padOK p) || p.kind != .fresnel || impulseBranch p
+          || xre.length ≠ p.ny * p.nx || xim.length ≠ p.ny * p.nx then (st, "err value") else
+      let x := (xre.zip xim).map fun (a, b) => (⟨a, b⟩ : GRat)
+      let r := propOpP p (back == 1) x
+      let showT := fun (t : Fft.Term) => if t.r == 0 then s!"{showRat t.c}:{showRat t.t}" else "?"
+      (st, "ok out=" ++ ";".intercalate (r.map fun s => ",".intercalate (s.terms.map showT)))
+    | none, some _, some _, some _ => (st, "err value")
+    | _, _, _, _ => (st, "bad-op")
   | ["ir", jy] =>
     match st.p, parseNat? jy with
     | some p, some jy =>
